@@ -29,6 +29,7 @@ def run(ctx, rep):
         tag = "" if cfg == "default" else "@" + cfg
         rep.analysed["bodies" + tag] = len(prog.bodies)
         ctors(prog, rep, tag)
+        no_wait_relabel(prog, rep, tag)
         transition(prog, rep, tag)
         waits(prog, rep, tag)
         wait_loop(prog, rep, tag)
@@ -65,6 +66,18 @@ def ctors(prog, rep, tag):
             tgt = {"SafeOp": "SafeOp", "Op": "Op", "PreOp": "PreOp", "Init": "Init"}[st[0]] if st[0] in ("SafeOp", "Op", "PreOp", "Init") else None
             ok = tgt is not None and ("subdevice_group::%s" % tgt) in (c.t.get("gargs") or "")
         rep.ob(P, "transition_to<-%s%s" % (fn, tag), ok, "%s requests %s and re-labels the group with the matching typestate (generic args %s)" % (fn, st, (c.t.get("gargs") or "")[-60:]), loc=c.span, how="table")
+
+
+def no_wait_relabel(prog, rep, tag):
+    """`request_into_op` is the one documented way to obtain the Op typestate without waiting for the devices (the
+    caller polls `all_op` itself).  No function of the crate other than its own variants (PreOp's goes through SafeOp's) may go through it: an `into_*` that did would hand out a
+    typestate nobody confirmed.  (Who-may-call rule with an expected count of zero; the positive control is the
+    callers of transition_to found by the same query.)"""
+    P = "C10.ctor"
+    exists = [b for b in prog.bodies if b.root_short == "SubDeviceGroup::request_into_op"]
+    callers = sorted({c.body.root_short for c in prog.calls_of("SubDeviceGroup::request_into_op") if c.body.crate == "ethercrab" and not c.body.d.get("is_test") and c.body.root_short != "SubDeviceGroup::request_into_op"})
+    control = [c for c in prog.calls_of("SubDeviceGroup::transition_to") if c.body.crate == "ethercrab"]
+    rep.ob(P, "request_into_op:no-internal-caller" + tag, not callers and len(control) >= 4 and bool(exists), "no function of the crate re-labels a group through request_into_op (the only constructor of a typestate that does not wait for it); callers: %s; control: %d callers of transition_to found by the same query" % (callers or "none", len(control)), how="inventory")
 
 
 def transition(prog, rep, tag):
